@@ -7,6 +7,7 @@ import Exetera.Lemmas.CatalogueHeap
 import Exetera.Lemmas.CatalogueRefineStep
 import Exetera.Lemmas.CatalogueSpec
 import Exetera.Lemmas.CatalogueHandles
+import Exetera.Lemmas.CatalogueReturnsStep
 /-!
   C15 — the catalogue stays consistent under any history of structural edits.
   All theorems are about `Exetera.Catalogue.step .repaired` / `run .repaired`, the functions the driver executes
@@ -239,6 +240,25 @@ theorem untouched_fields_keep_data {s s' : State} (hI : Inv s) (op : Op) (hz : o
     (hok : step .repaired s op = .ok u s') (p : Src) (hp : ¬ op.touches (srcOf s op) p) : (absH5 s').col p = (absH5 s).col p := by
   rw [returning_call_refines hI op hz hok]; exact specStep_untouched _ _ _ _ hp
 
+/-- WHEN a call returns: every call (other than `writeable()`, whose outcome hangs on the object's `_valid_reference` alone)
+    returns exactly when the abstract pre-condition `specOk` holds — the frame exists / does not exist yet, the column exists /
+    is free, the field handed in is there, the rename pre-check passes on the abstract frame — and raises otherwise. So a
+    valid call is never refused and an invalid one never goes through. -/
+theorem call_returns_iff {s : State} (hI : Inv s) (op : Op) (hz : op.refsLinked s) (hnv : op.isView = false) :
+    (step .repaired s op).isOk = specOk (srcOf s op) (absH5 s) op :=
+  step_isOk hI op hz hnv
+
+/-- … hence the abstract machine needs nothing from the model but where the field object handed in sits: one call of the
+    code is one step `specNext` (effect when the pre-condition holds, nothing otherwise), for every call. -/
+theorem step_refines_total {s : State} (hI : Inv s) (op : Op) (hz : op.refsLinked s) :
+    absH5 (step .repaired s op).state = specNext (absH5 s) (op, srcOf s op) :=
+  Catalogue.step_refines_total hI op hz
+
+/-- … and every history is an execution of the abstract machine. -/
+theorem history_refines_total (ops : List Op) (hz : HistLinked .repaired State.init ops) :
+    absH5 (run .repaired State.init ops) = specExec Cat.empty (srcLog .repaired State.init ops) := by
+  rw [← absH5_init]; exact run_refines_total ops inv_init hz
+
 /-- two datasets; frame x{a,b} and y{a_} in the first, x in the second; then: a frame copied into the other dataset, a frame
     assigned across datasets, a column moved (by held handle) into a frame of the other dataset where nothing is overwritten,
     a frame moved across datasets, a rename, a refused call, a reopen -/
@@ -255,6 +275,10 @@ example : let A := absH5 (run .repaired State.init exHist)
     A.col ⟨1, "u", "b"⟩ = some ⟨.indexed, 2⟩ ∧ A 1 "z" = none ∧ A.col ⟨1, "w", "a_"⟩ = some ⟨.fixed, 3⟩ ∧
     A.col ⟨1, "x", "b"⟩ = some ⟨.indexed, 2⟩ ∧ A.col ⟨0, "x", "a"⟩ = none ∧ A.col ⟨0, "x", "b"⟩ = some ⟨.numeric, 1⟩ ∧
     A.col ⟨1, "v", "a_"⟩ = some ⟨.fixed, 3⟩ ∧ (A 0 "y").isNone = true := by decide
+example : specOk (some ⟨0, "x", "b"⟩) (absH5 exState) (.moveField (.byHandle 1) 1 "x" "b") = true ∧
+    specOk (some ⟨0, "x", "a"⟩) (absH5 exState) (.moveField (.byHandle 0) 0 "y" "a_") = false ∧
+    specOk none (absH5 exState) (.copyFrame 0 "x" 1 "x") = false ∧ specOk none (absH5 exState) (.copyFrame 0 "x" 1 "z") = true := by
+  decide
 example : (Op.moveField (.byHandle 1) 1 "x" "b").refsLinked (run .repaired State.init (exOps ++ [.copyFrame 0 "x" 1 "z", .setFrame 1 "w" 0 "y"])) :=
   refsLinked_of_check (by decide)
 example : ¬ (Op.moveField (.byHandle 1) 1 "x" "b").touches (some ⟨0, "x", "b"⟩) ⟨0, "x", "a"⟩ := by
